@@ -28,7 +28,7 @@ func invokes(in ssa.Instruction, pkgSuffix, name string) bool {
 }
 
 func runC09(c *core.Ctx) core.Meta {
-	c.Load(dispPkg, resPkg, cpPkg, cuPkg, "amd/samples/runner/timingconfig/mi300a", "amd/samples/runner/timingconfig/r9nano")
+	c.Load(dispPkg, resPkg, cpPkg, cuPkg, emuPkg, "amd/samples/runner/timingconfig/mi300a", "amd/samples/runner/timingconfig/r9nano")
 	c.BuildSSA()
 	prov := core.NewProv(c)
 	pd := NewPkgInfo(c, dispPkg)
@@ -51,6 +51,32 @@ func runC09(c *core.Ctx) core.Meta {
 			FieldWriteEffect("dispatching-write", "DispatcherImpl.dispatching"),
 		},
 		Exempt: map[string]string{},
+	})
+	// ---------------- R09.10 the emulation CU reports every finished work-group ----------------
+	RunProto(c, &ProtoCfg{
+		AllEffectsAfterSend: true,
+		NoProgressRule:      true,
+		RuleBase:            "R09.10", Pkg: emuPkg, FloorSends: 1,
+		Effects: []Effect{
+			RetrieveEffect,
+			// forgetting the collected IDs (a store that does not extend the old list); adding an ID
+			// is idempotent - the handler looks the ID up first - and is repeated harmlessly on a retry
+			{Label: "finishedMapWGReqs-reset", Match: func(n *core.Node) bool {
+				sto, ok := n.Instr.(*ssa.Store)
+				if !ok {
+					return false
+				}
+				f := core.FieldOfAddr(sto.Addr)
+				if f == nil || core.ShortFieldID(f) != "ComputeUnit.finishedMapWGReqs" {
+					return false
+				}
+				if call, isCall := sto.Val.(*ssa.Call); isCall && core.IsBuiltin(call, "append") && len(call.Call.Args) > 0 && core.LoadedField(call.Call.Args[0]) == f {
+					return false
+				}
+				return true
+			}},
+		},
+		OnlyFuncs: func(name string) bool { return strings.HasPrefix(name, "ComputeUnit.") },
 	})
 	st2 := c.Rule("R09.2.pair", "a successful map request clears currWG.valid, counts the work-group and records it in inflightWGs under the request's ID, all three on every success path; the request names the reserved CU port, the work-group and every wavefront location", 1)
 	for _, fn := range pd.Direct(func(in ssa.Instruction) bool { return SendOn(in, "dispatchingPort") }) {
